@@ -21,9 +21,7 @@ func sig(r rtResult) string {
 		i := regexp.MustCompile(`differs from the original's at `).FindStringIndex(m)
 		m = m[i[1]:]
 	case "reparse":
-		i := regexp.MustCompile(`rejected by the parser: `).FindStringIndex(m)
-		m = "reject"
-		_ = i
+		m = "reject " + fmt.Sprintf("%T", r.T1)
 	case "idempotence":
 		m = ""
 	}
@@ -55,6 +53,14 @@ func TestSurvey(t *testing.T) {
 		}
 		acc++
 		if r.Stage == "" {
+			return
+		}
+		if id := placeholderFinding(r); id != "" {
+			attributed[id]++
+			return
+		}
+		if mysqlRawNamesExplains(s, r, func(string) bool { return true }) {
+			attributed[mysqlRawNames]++
 			return
 		}
 		if need := attribute(r.T1, func(string) bool { return true }); need != nil {
@@ -114,4 +120,36 @@ func TestListReparse(t *testing.T) {
 			fmt.Printf("%q\n    -> %q\n", s, r.S2)
 		}
 	}
+}
+
+func TestMutSamples(t *testing.T) {
+	if os.Getenv("SURVEY_MODE") != "mutsamples" {
+		t.Skip()
+	}
+	c := corpus()
+	g := rapid.Custom(func(rt *rapid.T) [2]string {
+		base := rapid.SampledFrom(c.all).Draw(rt, "base")
+		return [2]string{base, mutate(rt, base, rapid.SampledFrom(c.all).Draw(rt, "other"))}
+	})
+	for i := 0; i < 40; i++ {
+		x := g.Example(i)
+		r := roundTrip(x[1])
+		fmt.Printf("%-8s %q\n      => %q\n", r.Stage, x[0], x[1])
+	}
+	// identity check of the lexer: unmutated re-join must still parse
+	bad := 0
+	for _, s := range c.all {
+		j := ""
+		for i, tk := range lexemes(s) {
+			if i > 0 {
+				j += " "
+			}
+			j += tk
+		}
+		if roundTrip(j).Stage == "reject" {
+			bad++
+			fmt.Printf("LEXER BREAKS %q => %q\n", s, j)
+		}
+	}
+	fmt.Println("lexer breaks", bad, "of", len(c.all))
 }
